@@ -26,9 +26,16 @@ def blk(b, ns):
     return m if ns == 2 else m[0, 0]
 
 
-def ptb_new(norb, ns, pos):
+CELLS = {False: [[1.0, 0.0], [0.0, 1.0]], True: [[1.0, 0.0], [1.0, 2.0]]}       # orthogonal / skew unit cell (energies do not depend on it)
+
+
+class Environment(MachineryError):
+    """a third-party builder (PythTB / TBmodels) does not behave like the modelled library version: not a statement about wannierberri"""
+
+
+def ptb_new(norb, ns, pos, skew=False):
     import pythtb
-    lat = pythtb.Lattice(lat_vecs=[[1.0, 0.0], [0.0, 1.0]], orb_vecs=[[p[0] / W.CU, p[1] / W.CU] for p in pos], periodic_dirs=[0, 1])
+    lat = pythtb.Lattice(lat_vecs=CELLS[bool(skew)], orb_vecs=[[p[0] / W.CU, p[1] / W.CU] for p in pos], periodic_dirs=[0, 1])
     return pythtb.TBModel(lat, spinful=(ns == 2))
 
 
@@ -70,10 +77,10 @@ def ptb_state(model, ns):
     return site, tab
 
 
-def tbm_new(size, pos, onsite):
+def tbm_new(size, pos, onsite, skew=False):
     import tbmodels
     return tbmodels.Model(on_site=[float(x) for x in onsite], dim=2, pos=[[p[0] / W.CU, p[1] / W.CU] for p in pos], size=size,
-                          uc=[[1.0, 0.0], [0.0, 1.0]])
+                          uc=CELLS[bool(skew)])
 
 
 def tbm_step(model, st):
@@ -93,40 +100,64 @@ def tbm_state(model):
 
 
 def import_real(model, module):
+    """the call under test: System_R.from_pythtb / from_tbmodels"""
     from wannierberri.system.system_R import System_R
     with quiet(), warnings.catch_warnings():
         warnings.simplefilter("ignore")
-        s = System_R.from_pythtb(model) if module == "ptb" else System_R.from_tbmodels(model)
+        s = W.under_test(System_R.from_pythtb, model) if module == "ptb" else W.under_test(System_R.from_tbmodels, model)
     return s
 
 
 def safe_import(rep, model, module, detail):
-    """import for the recorded histories: an exception of the import is reported like in the replay"""
+    """import: an exception of the package is reported as a violation, -> None"""
+    site = "from_pythtb" if module == "ptb" else "from_tbmodels"
     try:
         return import_real(model, module)
-    except Exception as ex:
+    except W.UnderTestError as e:
         only_home = module == "ptb" and all("lattice_vector" not in h for h in model.hoppings)
-        site = "from_pythtb" if module == "ptb" else "from_tbmodels"
-        rep.violation(f"{site}:raises" + (":no_hopping_with_lattice_vector" if only_home else ""), dict(detail, error=repr(ex)[:300]))
-        return None
+        rep.violation(f"{site}:raises" + (":no_hopping_with_lattice_vector" if only_home else ""), dict(detail, error=str(e)[:300], raised_in=e.site))
+    except W.HarnessMisuse as e:
+        W.note_skip(site, e)
+    return None
 
 
-KPTS = [(0.0, 0.0), (0.25, 0.5), (0.137, 0.291), (0.5, 0.5), (0.61, 0.83)]
+KPTS = [(0.0, 0.0, 0.0), (0.25, 0.5, 0.125), (0.137, 0.291, 0.412), (0.5, 0.5, 0.5), (0.61, 0.83, 0.29)]
 
 
-def energies_vs_source(rep, model, module, system, detail, site):
-    """energies of the imported system (Data_K_R on a k-list) vs the source model's own solver"""
+def source_energies(model, module, dim_k):
+    """the source model's own solver on KPTS (first dim_k components)"""
+    ks = [list(k[:dim_k]) for k in KPTS]
     if module == "ptb":
         with warnings.catch_warnings():
             warnings.simplefilter("ignore")
-            src = np.sort(np.array(model.solve_ham(np.array(KPTS))), axis=-1).reshape(len(KPTS), -1)
-    else:
-        src = np.array([np.sort(model.eigenval(list(k))) for k in KPTS])
-    d = W.data_k_list(system, [(4 * k[0], 4 * k[1], 0) for k in KPTS])
-    got = np.sort(np.array(d.E_K), axis=-1)
-    dev = float(np.max(np.abs(got - src)))
+            return np.sort(np.array(model.solve_ham(np.array(ks))).reshape(len(ks), -1), axis=-1)
+    return np.array([np.sort(model.eigenval(k)) for k in ks])
+
+
+def energies_vs_source(rep, model, module, system, detail, site, dim_k=2, with_evaluate_k=True):
+    """energies of the imported system (Data_K_R on a k-list; one evaluate_k call) vs the source model's own solver"""
+    src = source_energies(model, module, dim_k)
+    k3 = [tuple(list(k[:dim_k]) + [0.0] * (3 - dim_k)) for k in KPTS]
+    ok, ek = W.guarded(rep, f"{site}:energies", detail, W.real_ek, system, [tuple(4 * x for x in k) for k in k3])
+    if not ok:
+        return 0.0
+    got = np.sort(np.array(ek), axis=-1)
+    dev = float(np.max(np.abs(got - src))) if got.shape == src.shape else float("inf")
     if dev > 1e-8:
-        rep.violation(f"{site}:energies", dict(detail, kpoints=KPTS, source=src.tolist(), imported=got.tolist(), deviation=dev))
+        rep.violation(f"{site}:energies", dict(detail, kpoints=k3, source=src.tolist(), imported=got.tolist(), deviation=dev))
+    if with_evaluate_k:
+        import wannierberri as wb
+
+        def ev():
+            with quiet(), warnings.catch_warnings():
+                warnings.simplefilter("ignore")
+                return np.sort(np.asarray(wb.evaluate_k(system, k=k3[2], quantities=["energy"])).reshape(-1))
+        ok, e1 = W.guarded(rep, f"{site}:evaluate_k", detail, ev)
+        if ok:
+            d1 = float(np.max(np.abs(e1 - src[2]))) if e1.shape == src[2].shape else float("inf")
+            dev = max(dev, d1)
+            if d1 > 1e-8:
+                rep.violation(f"{site}:evaluate_k", dict(detail, k=k3[2], source=src[2].tolist(), imported=e1.tolist(), deviation=d1))
     return dev
 
 
